@@ -23,7 +23,10 @@
 //!     success: tx facts (validity by Transaction::validate, inputs / outputs / fee
 //!              by name and value, stored copy equal), post + mine into the real
 //!              chain, refresh;
-//!     failure: cancel every pending entry of the slate, refresh, balances.
+//!     failure: [case.retry: the reply the counterparty really sent is delivered next and
+//!              recorded the same way (`retry`, projected as `o2`)]; after the last refusal
+//!              the pending transaction is cancelled by slate id (by log id in the self
+//!              flows), refresh, balances.
 mod tamper;
 
 use grin_util as util;
@@ -296,7 +299,7 @@ fn run_case(w: &mut World, c: &Value, ctl: &mut Ctl) -> Value {
 		if r["res"] != "ok" {
 			ev["run"] = json!("noreply");
 			ev["steps"] = json!(steps);
-			cleanup(w, &mut ev, &name, payer, payee, None);
+			cleanup(w, &mut ev, &name, payer, payee, None, false);
 			return ev;
 		}
 		obs = w.obs();
@@ -323,7 +326,7 @@ fn run_case(w: &mut World, c: &Value, ctl: &mut Ctl) -> Value {
 		env.fin_part = v1.sigs.get(0).cloned();
 		let fwd = if stage == "pre" {
 			if let Err(e) = tamper::apply(&class, &mut v1, &env) {
-				cleanup(w, &mut ev, &name, payer, payee, None);
+				cleanup(w, &mut ev, &name, payer, payee, None, false);
 				skip!(format!("tamper:{}", e));
 			}
 			let (sl, wire) = tamper::deliver(&v1);
@@ -338,7 +341,7 @@ fn run_case(w: &mut World, c: &Value, ctl: &mut Ctl) -> Value {
 		if p["res"] != "ok" {
 			ev["run"] = json!("noreply");
 			ev["steps"] = json!(steps);
-			cleanup(w, &mut ev, &name, payer, payee, None);
+			cleanup(w, &mut ev, &name, payer, payee, None, false);
 			return ev;
 		}
 		agreed = json!({"amt": i["ret"]["amt"], "fee": p["ret"]["fee"]});
@@ -355,7 +358,7 @@ fn run_case(w: &mut World, c: &Value, ctl: &mut Ctl) -> Value {
 		if l["res"] != "ok" {
 			ev["run"] = json!("skip:lock");
 			ev["steps"] = json!(steps);
-			cleanup(w, &mut ev, &name, payer, payee, None);
+			cleanup(w, &mut ev, &name, payer, payee, None, false);
 			return ev;
 		}
 		env.fee = p["ret"]["fee"].as_u64().unwrap_or(0) * U;
@@ -389,7 +392,7 @@ fn run_case(w: &mut World, c: &Value, ctl: &mut Ctl) -> Value {
 		if let Err(e) = both {
 			ev["run"] = json!(format!("skip:tamper:{}", e));
 			ev["steps"] = json!(steps);
-			cleanup(w, &mut ev, &name, payer, payee, other.as_deref());
+			cleanup(w, &mut ev, &name, payer, payee, other.as_deref(), false);
 			return ev;
 		}
 		let (sl, wire) = tamper::deliver(&v2);
@@ -404,80 +407,123 @@ fn run_case(w: &mut World, c: &Value, ctl: &mut Ctl) -> Value {
 	ev["run"] = json!("ok");
 
 	// ---- 4. finalize with the altered reply
+	let genuine = tamper::deliver(&to_v4(&reply)).0;
 	let f = w.finalize(finw, &name, reply_stage, 0, Some(delivered), false);
 	ev["fin"] = json!({"res": f["res"], "detail": f["detail"], "state": f["ret"]["state"]});
 	obs = w.obs();
-	// what the payer has reserved for this slate right now
+	ev["resv"] = reservation(&obs, payer, &name, &rout);
+	if ctl.stale_sig.is_none() {
+		ctl.stale_sig = genuine_sig;
+	}
+	let by_slate = flow != "self" && flow != "invself";
+	ev["cancel_by"] = json!(if by_slate { "slate" } else { "id" });
+	if f["res"] == "ok" {
+		let mut d = json!({});
+		success(w, &mut d, &f, &obs, &name, payer, payee, finw, other.as_deref());
+		for k in ["tx", "chain", "after", "cleanup", "abandon"].iter() {
+			if !d[*k].is_null() {
+				ev[*k] = d[*k].clone();
+			}
+		}
+	} else if c["retry"].as_bool().unwrap_or(false) {
+		// ---- 5. the refused reply is followed by the one the counterparty really sent
+		let f2 = w.finalize(finw, &name, reply_stage, 0, Some(genuine), false);
+		let mut d = json!({"fin": {"res": f2["res"], "detail": f2["detail"], "state": f2["ret"]["state"]}});
+		obs = w.obs();
+		d["resv"] = reservation(&obs, payer, &name, &rout);
+		if f2["res"] == "ok" {
+			success(w, &mut d, &f2, &obs, &name, payer, payee, finw, other.as_deref());
+			ev["after"] = d["after"].clone();
+			if d["abandon"] == true {
+				ev["abandon"] = json!(true);
+			}
+		} else {
+			cleanup(w, &mut ev, &name, payer, payee, other.as_deref(), by_slate);
+		}
+		ev["retry"] = d;
+	} else {
+		cleanup(w, &mut ev, &name, payer, payee, other.as_deref(), by_slate);
+	}
+	ev["steps"] = json!(steps);
+	ev["o"] = project(&ev, &ev, unrep0, w.unrep.get());
+	if !ev["retry"].is_null() {
+		let d = ev["retry"].clone();
+		ev["o2"] = project(&ev, &d, unrep0, w.unrep.get());
+	}
+	ev
+}
+
+/// what the payer's store holds for the slate right now: every output Locked / Unconfirmed under ANY
+/// TxSent entry that carries the slate id, and the number of such (live) entries
+fn reservation(obs: &Value, payer: &str, name: &str, rout: &[Value]) -> Value {
 	let mut rins = vec![];
 	let mut rchg = vec![];
-	for (id, ty, _) in entries(&obs, payer, &name) {
+	let mut nsent = 0;
+	for (id, ty, _) in entries(obs, payer, name) {
 		if ty == "TxSent" {
-			rins.extend(outs_of(&obs, payer, id, "Locked"));
-			rchg.extend(outs_of(&obs, payer, id, "Unconfirmed"));
+			nsent += 1;
+			rins.extend(outs_of(obs, payer, id, "Locked"));
+			rchg.extend(outs_of(obs, payer, id, "Unconfirmed"));
 		}
 	}
 	let rn: Vec<String> = rout.iter().map(|x| s(&x["n"])).collect();
 	let rchg: Vec<Value> = rchg.into_iter().filter(|o| !rn.contains(&s(&o["n"]))).collect();
-	ev["resv"] = json!({"ins": rins, "chg": rchg});
+	json!({"ins": rins, "chg": rchg, "nsent": nsent})
+}
 
-	if ctl.stale_sig.is_none() {
-		ctl.stale_sig = genuine_sig;
-	}
-	if f["res"] == "ok" {
-		let body = obs["body"][name.as_str()].clone();
-		let val = |n: &Value| -> Value { obs["reg"].get(n.as_str().unwrap_or("")).map(|r| r["v"].clone()).unwrap_or(json!(-1)) };
-		let ins: Vec<Value> = body["ins"].as_array().cloned().unwrap_or_default();
-		let outs: Vec<Value> = body["outs"].as_array().cloned().unwrap_or_default();
-		let inv: Vec<Value> = ins.iter().map(|n| val(n)).collect();
-		let outv: Vec<Value> = outs.iter().map(|n| val(n)).collect();
-		let (nker, kfeat, klock) = match w.slates.get(&name).and_then(|r| r.final_tx.as_ref()) {
-			Some(tx) => {
-				use grin_core::core::KernelFeatures::*;
-				let k = tx.kernels();
-				let (kf, kl) = match k.get(0).map(|k| k.features) {
-					Some(Plain { .. }) => (0, 0),
-					Some(Coinbase) => (1, 0),
-					Some(HeightLocked { lock_height, .. }) => (2, lock_height),
-					Some(NoRecentDuplicate { relative_height, .. }) => (3, u64::from(relative_height)),
-					None => (-1, 0),
-				};
-				(k.len(), kf, kl)
-			}
-			None => (0, -1, 0),
-		};
-		ev["tx"] = json!({"ins": ins, "outs": outs, "inv": inv, "outv": outv, "fee": body["fee"], "nker": nker, "kfeat": kfeat, "klock": klock,
-			"valid": f["ret"]["valid"], "stored_equal": f["ret"]["stored_equal"]});
-		let p = w.post(&name);
-		let m = w.mine(None, &[name.clone()]);
-		let a1 = w.refresh(payer, 1);
-		let a2 = w.refresh(payee, 1);
-		let o2 = w.obs();
-		let utxo: Vec<String> = o2["utxo"].as_array().cloned().unwrap_or_default().iter().map(|x| s(x)).collect();
-		let outs_in = outs.iter().all(|n| utxo.contains(&s(n)));
-		let ins_out = ins.iter().all(|n| !utxo.contains(&s(n)));
-		ev["chain"] = json!({"post": p["res"], "mined": m["res"], "detail": m["detail"], "outs_unspent": outs_in, "ins_spent": ins_out});
-		ev["after"] = json!({ payer: info_of(&a1), payee: info_of(&a2) });
-		if let Some(on) = other.as_deref() {
-			cancel_all(w, finw, on);
+/// after a finalize that returned a transaction: its facts by name and value, then post, mine into the
+/// real chain, refresh; recorded into `d` (tx, chain, after[, cleanup, abandon])
+fn success(w: &mut World, d: &mut Value, f: &Value, obs: &Value, name: &str, payer: &str, payee: &str, finw: &str, other: Option<&str>) {
+	let body = obs["body"][name].clone();
+	let val = |n: &Value| -> Value { obs["reg"].get(n.as_str().unwrap_or("")).map(|r| r["v"].clone()).unwrap_or(json!(-1)) };
+	let ins: Vec<Value> = body["ins"].as_array().cloned().unwrap_or_default();
+	let outs: Vec<Value> = body["outs"].as_array().cloned().unwrap_or_default();
+	let inv: Vec<Value> = ins.iter().map(|n| val(n)).collect();
+	let outv: Vec<Value> = outs.iter().map(|n| val(n)).collect();
+	let (nker, kfeat, klock) = match w.slates.get(name).and_then(|r| r.final_tx.as_ref()) {
+		Some(tx) => {
+			use grin_core::core::KernelFeatures::*;
+			let k = tx.kernels();
+			let (kf, kl) = match k.get(0).map(|k| k.features) {
+				Some(Plain { .. }) => (0, 0),
+				Some(Coinbase) => (1, 0),
+				Some(HeightLocked { lock_height, .. }) => (2, lock_height),
+				Some(NoRecentDuplicate { relative_height, .. }) => (3, u64::from(relative_height)),
+				None => (-1, 0),
+			};
+			(k.len(), kf, kl)
 		}
-		if m["res"] != "ok" {
-			// the chain refused the transaction: release what it holds and start afresh
-			let c1 = cancel_all(w, payer, &name);
-			let c2 = if payee != payer { cancel_all(w, payee, &name) } else { vec![] };
-			ev["cleanup"] = json!({"payer": c1, "payee": c2});
-			ev["abandon"] = json!(true);
-		}
-	} else {
-		cleanup(w, &mut ev, &name, payer, payee, other.as_deref());
+		None => (0, -1, 0),
+	};
+	d["tx"] = json!({"ins": ins, "outs": outs, "inv": inv, "outv": outv, "fee": body["fee"], "nker": nker, "kfeat": kfeat, "klock": klock,
+		"valid": f["ret"]["valid"], "stored_equal": f["ret"]["stored_equal"]});
+	let p = w.post(name);
+	let m = w.mine(None, &[name.to_string()]);
+	let a1 = w.refresh(payer, 1);
+	let a2 = w.refresh(payee, 1);
+	let o2 = w.obs();
+	let utxo: Vec<String> = o2["utxo"].as_array().cloned().unwrap_or_default().iter().map(|x| s(x)).collect();
+	let outs_in = outs.iter().all(|n| utxo.contains(&s(n)));
+	let ins_out = ins.iter().all(|n| !utxo.contains(&s(n)));
+	d["chain"] = json!({"post": p["res"], "mined": m["res"], "detail": m["detail"], "outs_unspent": outs_in, "ins_spent": ins_out});
+	d["after"] = json!({ payer: info_of(&a1), payee: info_of(&a2) });
+	if let Some(on) = other {
+		cancel_all(w, finw, on);
 	}
-	ev["steps"] = json!(steps);
-	ev["o"] = project(&ev, unrep0, w.unrep.get());
-	ev
+	// anything of this slate still pending in the payer after the transaction was mined (outputs left Locked
+	// under a second entry, ...) or a refusal by the chain: release it and start afresh
+	let left = entries(&o2, payer, name).iter().any(|(_, ty, conf)| !*conf && ty == "TxSent");
+	if m["res"] != "ok" || left {
+		let c1 = cancel_all(w, payer, name);
+		let c2 = if payee != payer { cancel_all(w, payee, name) } else { vec![] };
+		d["cleanup"] = json!({"payer": c1, "payee": c2});
+		d["abandon"] = json!(true);
+	}
 }
 
 /// the observed outcome in the vocabulary of SlateAlgebra!FinalTxBroken / StillCancellableBroken:
 /// a pure projection of what was recorded above (nothing is decided here)
-fn project(ev: &Value, unrep0: u64, unrep1: u64) -> Value {
+fn project(ev: &Value, d: &Value, unrep0: u64, unrep1: u64) -> Value {
 	let finw = s(&ev["finw"]);
 	let nv = |names: &Value, vals: &Value| -> Vec<Value> {
 		names
@@ -489,13 +535,13 @@ fn project(ev: &Value, unrep0: u64, unrep1: u64) -> Value {
 			.map(|(n, v)| json!({"n": n, "v": v}))
 			.collect()
 	};
-	let ok = ev["fin"]["res"] == "ok";
+	let ok = d["fin"]["res"] == "ok";
 	let tx = if ok {
-		let ch = &ev["chain"];
-		json!({"ins": nv(&ev["tx"]["ins"], &ev["tx"]["inv"]), "outs": nv(&ev["tx"]["outs"], &ev["tx"]["outv"]),
-			"fee": ev["tx"]["fee"].as_i64().unwrap_or(-1), "nker": ev["tx"]["nker"].as_i64().unwrap_or(-1),
-			"kfeat": ev["tx"]["kfeat"].as_i64().unwrap_or(-1), "klock": ev["tx"]["klock"].as_i64().unwrap_or(-1),
-			"valid": ev["tx"]["valid"].as_bool().unwrap_or(false), "stored_equal": ev["tx"]["stored_equal"].as_bool().unwrap_or(false),
+		let ch = &d["chain"];
+		json!({"ins": nv(&d["tx"]["ins"], &d["tx"]["inv"]), "outs": nv(&d["tx"]["outs"], &d["tx"]["outv"]),
+			"fee": d["tx"]["fee"].as_i64().unwrap_or(-1), "nker": d["tx"]["nker"].as_i64().unwrap_or(-1),
+			"kfeat": d["tx"]["kfeat"].as_i64().unwrap_or(-1), "klock": d["tx"]["klock"].as_i64().unwrap_or(-1),
+			"valid": d["tx"]["valid"].as_bool().unwrap_or(false), "stored_equal": d["tx"]["stored_equal"].as_bool().unwrap_or(false),
 			"chain_ok": ch["post"] == "ok" && ch["mined"] == "ok" && ch["outs_unspent"] == true && ch["ins_spent"] == true})
 	} else {
 		json!({"ins": [], "outs": [], "fee": -1, "nker": 0, "kfeat": -1, "klock": 0, "valid": false, "stored_equal": false, "chain_ok": false})
@@ -504,14 +550,8 @@ fn project(ev: &Value, unrep0: u64, unrep1: u64) -> Value {
 	let deal = json!({"ins": ev["deal"]["ins"], "chg": ev["deal"]["outs"], "rout": ev["rout"],
 		"amt": ev["agreed"]["amt"].as_i64().unwrap_or(-1), "fee": ev["agreed"]["fee"].as_i64().unwrap_or(-1), "known": known});
 	let cancel: Vec<Value> = ev["cancel"]["fin"].as_array().cloned().unwrap_or_default().iter().map(|x| x["res"].clone()).collect();
-	let pending_after = ev["entries_after"]
-		.as_array()
-		.cloned()
-		.unwrap_or_default()
-		.iter()
-		.filter(|x| x["w"] == finw.as_str() && x["conf"] == false && (x["ty"] == "TxSent" || x["ty"] == "TxReceived"))
-		.count();
-	json!({"res": ev["fin"]["res"], "detail": ev["fin"]["detail"].as_str().unwrap_or(""), "tx": tx, "deal": deal, "resv": ev["resv"],
+	let pending_after = ev["pending"]["after"].as_u64().unwrap_or(0);
+	json!({"res": d["fin"]["res"], "detail": d["fin"]["detail"].as_str().unwrap_or(""), "tx": tx, "deal": deal, "resv": d["resv"],
 		"cancel": cancel, "pending_after": pending_after,
 		"before": ev["before"][finw.as_str()], "after": ev["after"][finw.as_str()], "unrep": unrep1.saturating_sub(unrep0)})
 }
@@ -531,26 +571,48 @@ fn cancel_all(w: &mut World, wn: &str, name: &str) -> Vec<Value> {
 
 /// after a failed finalize (or an exchange that could not be completed): cancel what is
 /// pending, refresh, record the balances
-fn cleanup(w: &mut World, ev: &mut Value, name: &str, payer: &str, payee: &str, other: Option<&str>) {
+fn cleanup(w: &mut World, ev: &mut Value, name: &str, payer: &str, payee: &str, other: Option<&str>, by_slate: bool) {
 	let finw = s(&ev["finw"]);
-	let cf = cancel_all(w, &finw, name);
-	let cother_w = if finw == payer { payee } else { payer };
-	let co = if cother_w != finw { cancel_all(w, cother_w, name) } else { vec![] };
+	let otherw = if finw == payer { payee } else { payer };
+	// the cancel that is judged: by slate id where the wallet keeps one entry per slate, by log id otherwise
+	let obs0 = w.obs();
+	let live = |obs: &Value, wn: &str| -> usize {
+		entries(obs, wn, name).iter().filter(|(_, ty, conf)| !*conf && (ty == "TxSent" || ty == "TxReceived")).count()
+	};
+	let pending_before = live(&obs0, &finw);
+	let cf = if !by_slate {
+		cancel_all(w, &finw, name)
+	} else if pending_before > 0 {
+		let r = w.cancel(&finw, None, Some(name));
+		vec![json!({"id": -1, "ty": "by-slate-id", "res": r["res"], "detail": r["detail"]})]
+	} else {
+		vec![]
+	};
+	// the second pending transaction some cases create is scaffolding of the harness, not part of the slate
 	if let Some(on) = other {
 		cancel_all(w, &finw, on);
 	}
-	let a1 = w.refresh(payer, 1);
-	let a2 = w.refresh(payee, 1);
+	let af = w.refresh(&finw, 1);
+	let obs1 = w.obs();
+	let pending_after = live(&obs1, &finw);
+	// whatever is left (unjudged): release it so that the world can go on
+	let left = cancel_all(w, &finw, name);
+	let co = if otherw != finw { cancel_all(w, otherw, name) } else { vec![] };
+	let ao = w.refresh(otherw, 1);
 	let obs = w.obs();
 	let still: Vec<Value> = [payer, payee]
 		.iter()
 		.flat_map(|wn| entries(&obs, wn, name).into_iter().map(move |(id, ty, conf)| json!({"w": wn, "id": id, "ty": ty, "conf": conf})))
 		.collect();
-	ev["cancel"] = json!({"fin": cf, "other": co});
+	ev["cancel"] = json!({"fin": cf, "other": co, "left": left});
+	ev["pending"] = json!({"before": pending_before, "after": pending_after});
 	ev["entries_after"] = json!(still);
-	ev["after"] = json!({ payer: info_of(&a1), payee: info_of(&a2) });
+	let mut after = json!({});
+	after[otherw] = info_of(&ao);
+	after[finw.as_str()] = info_of(&af);
+	ev["after"] = after;
 	let bad = |v: &Vec<Value>| v.iter().any(|x| x["res"] != "ok");
-	if bad(&cf) || bad(&co) || ev["after"] != ev["before"] {
+	if bad(&cf) || bad(&co) || !left.is_empty() || ev["after"] != ev["before"] {
 		ev["abandon"] = json!(true);
 	}
 }
